@@ -3,18 +3,32 @@
 // Contracts for package vm, property C26 (checkpoint half) and C07 (comment-only; read by /verif/engine).
 package vm
 
+// PushFront is not used by the page table today; its contract is here so that a change from PushBack to PushFront is judged
+// by the order postconditions (every element moves one position back) and not by a missing contract.
+//@ ext container/list.(*List).PushFront(l, v)
+//@   trusted
+//@   requires l != nil
+//@   ensures result != nil && fresh(result) && result <= allocTop && result.Value == v
+//@   ensures llen == upd(old(llen), l, old(llen)[l] + 1)
+//@   ensures lseq[l][0] == result && (forall i int :: i >= 0 ==> lseq[l][i + 1] == old(lseq)[l][i]) && (forall k int :: k != l ==> lseq[k] == old(lseq)[k])
+//@   ensures lown == upd(old(lown), result, l) && lpos[result] == 0
+//@   ensures forall x int :: x != result ==> lpos[x] == (old(lown)[x] == l ? old(lpos)[x] + 1 : old(lpos)[x])
+//@   assigns llen, lseq, lown, lpos
+
 //@ ext container/list.(*List).Len(l)
 //@   trusted
 //@   pure
 //@   requires l != nil
-//@   ensures result == llen[l]
+//@   ensures result == llen[l] && 0 <= result && result <= 1<<59   // an element takes at least 32 bytes of a 64-bit address space
 
 // listHolds(t, pg, n): t's list is exactly pg[0..n) in order: n well-placed fresh elements, the k-th holding page pg[k]
 // (field by field: Page values are compared as structs).
-//@ pred listHolds(t, pg, n) = llen[t.entries] == n && n >= 0
-//@   && (forall k int :: 0 <= k && k < n ==> elemAt(t, k) != nil && fresh(elemAt(t, k)) && elemAt(t, k) <= allocTop && lown[elemAt(t, k)] == t.entries && lpos[elemAt(t, k)] == k && hastype(elemAt(t, k).Value, "Page") && ifaceval(elemAt(t, k).Value) <= allocTop)
-//@   && (forall k in 0..n :: pageOf(elemAt(t, k)) == pg[k])
-//@   && (forall k int :: 0 <= k && k < n ==> pageOf(elemAt(t, k)) == pg[k])   // same fact, indexed from the list side (helps instantiation)
+//@ pred listLen(t, n) = llen[t.entries] == n && n >= 0
+//@ pred listElems(t, n) = forall k int :: 0 <= k && k < n ==> elemAt(t, k) != nil && fresh(elemAt(t, k)) && elemAt(t, k) <= allocTop && lown[elemAt(t, k)] == t.entries && lpos[elemAt(t, k)] == k && hastype(elemAt(t, k).Value, "Page") && ifaceval(elemAt(t, k).Value) <= allocTop
+//@ pred listPages(t, pg, n) = forall k in 0..n :: pageOf(elemAt(t, k)) == pg[k]
+// the same fact indexed from the list side (the two forms instantiate from different terms)
+//@ pred listPagesL(t, pg, n) = forall k int :: 0 <= k && k < n ==> pageOf(elemAt(t, k)) == pg[k]
+//@ pred listHolds(t, pg, n) = listLen(t, n) && listElems(t, n) && listPages(t, pg, n) && listPagesL(t, pg, n)
 // mapPoints(t): every map entry points at an element of t's list that holds a page with that VAddr.
 //@ pred mapPoints(t) = forall v uint64 :: v in t.entriesTable ==> t.entriesTable[v] != nil && t.entriesTable[v] <= allocTop && lown[t.entriesTable[v]] == t.entries && 0 <= lpos[t.entriesTable[v]] && lpos[t.entriesTable[v]] < llen[t.entries] && lseq[t.entries][lpos[t.entriesTable[v]]] == t.entriesTable[v] && hastype(t.entriesTable[v].Value, "Page") && ifaceval(t.entriesTable[v].Value) <= allocTop && pageOf(t.entriesTable[v]).VAddr == v
 // mapCovers(t, n): the VAddr of every listed page is a key, and the key points at the LAST listed page with that VAddr
@@ -30,7 +44,10 @@ package vm
 //@ pred builtUpTo(pt, tabs, src, n) = (forall i in 0..n :: tabs[i].PID in pt.tables)
 //@   && (forall p uint32 :: p in pt.tables ==> 0 <= src[p] && src[p] < n && tabs[src[p]].PID == p && (forall i in src[p] + 1..n :: tabs[i].PID != p))
 //@   && (forall p uint32 :: p in pt.tables ==> tableShape(pt.tables[p]))
-//@   && (forall p uint32 :: p in pt.tables ==> listHolds(pt.tables[p], tabs[src[p]].Pages, len(tabs[src[p]].Pages)))
+//@   && (forall p uint32 :: p in pt.tables ==> listLen(pt.tables[p], len(tabs[src[p]].Pages)))
+//@   && (forall p uint32 :: p in pt.tables ==> listElems(pt.tables[p], llen[pt.tables[p].entries]))
+//@   && (forall p uint32 :: p in pt.tables ==> listPages(pt.tables[p], tabs[src[p]].Pages, len(tabs[src[p]].Pages)))
+//@   && (forall p uint32 :: p in pt.tables ==> listPagesL(pt.tables[p], tabs[src[p]].Pages, llen[pt.tables[p].entries]))
 //@   && (forall p uint32 :: p in pt.tables ==> mapPoints(pt.tables[p]))
 //@   && (forall p uint32 :: p in pt.tables ==> mapCovers(pt.tables[p], llen[pt.tables[p].entries]))
 //@   && tablesSep(pt)
@@ -75,3 +92,45 @@ package vm
 //@   loop 1: invariant -1 <= rangeindex && rangeindex < len(entry.Pages) && oldLists()
 //@   loop 1: invariant tableBuilt(table, entry.Pages, rangeindex + 1)
 //@   loop 1: invariant builtUpTo(pt, dto.Tables, ckptSrc, oi + 1) && apartFrom(pt, table)
+
+// ---- SaveCheckpoint ----
+// encDTO: the value handed to the JSON encoder (a snapshot of the local dto).
+//@ const encDTO = as(mkiface(jsonEncTyp, jsonEncVal), "pageTableCheckpoint")
+// pagesOf(pg, t): pg is the content of t's list, in list order, field by field.
+//@ pred pagesOf(pg, t) = len(pg) == llen[t.entries] && (forall k in 0..len(pg) :: pg[k] == pageOf(elemAt(t, k)))
+// savedUpTo(pt, tabs, pids, n): tabs has one entry per pids[0..n), in that order, each with its process's pages.
+//@ pred savedUpTo(pt, tabs, pids, n) = len(tabs) == n && (forall i in 0..n :: tabs[i].PID == pids[i])
+//@   && (forall i in 0..n :: (tabs[i].PID in pt.tables) && ref(tabs[i].Pages) <= allocTop && pagesOf(tabs[i].Pages, pt.tables[tabs[i].PID]))
+
+//@ fn (*pageTableImpl).SaveCheckpoint
+//@   property C26
+//@   requires tablesWF(pt)
+//@   requires len(pt.tables) <= 4294967296   // a map keyed by a uint32 cannot hold more (needed for make's capacity)
+//@   label C26.save.once
+//@   ensures jsonEncCount == 1 && encDTO.Log2PageSize == pt.log2PageSize
+//@   label C26.save.pids
+//@   ensures forall i in 0..len(encDTO.Tables) :: (encDTO.Tables[i].PID in pt.tables)
+//@   label C26.save.ascending
+//@   ensures forall i in 0..len(encDTO.Tables) :: forall j in 0..len(encDTO.Tables) :: i < j ==> encDTO.Tables[i].PID < encDTO.Tables[j].PID
+//@   label C26.save.complete
+//@   ensures forall p uint32 :: (p in pt.tables) ==> 0 <= ckptIdx[p] && ckptIdx[p] < len(encDTO.Tables) && encDTO.Tables[ckptIdx[p]].PID == p
+//@   label C26.save.pages
+//@   ensures forall i in 0..len(encDTO.Tables) :: pagesOf(encDTO.Tables[i].Pages, pt.tables[encDTO.Tables[i].PID])
+//@   assigns nothing
+//@   witness ckptIdx map = mapof(p, Slice_inv[where[p]])
+//@   loop 0: ghost where = idperm
+//@   loop 0: backedge where = upd(where, pid, athead(len(pids)))
+//@   loop 0: invariant fresh(pids) && off(pids) == 0
+//@   loop 0: invariant forall k in 0..len(pids) :: (pids[k] in pt.tables) && visited(pids[k]) && where[pids[k]] == k
+//@   loop 0: invariant forall p uint32 :: visited(p) ==> 0 <= where[p] && where[p] < len(pids) && pids[where[p]] == p
+//@   loop 1: invariant -1 <= rangeindex && rangeindex < len(pids)
+//@   loop 1: invariant fresh(dto.Tables) && off(dto.Tables) == 0 && dto.Log2PageSize == pt.log2PageSize
+//@   loop 1: invariant savedUpTo(pt, dto.Tables, pids, rangeindex + 1)
+//@   loop 1: ghost oi = -1
+//@   loop 1: backedge oi = oi + 1
+//@   loop 1: invariant oi == rangeindex
+//@   loop 2: invariant fresh(dto.Tables) && off(dto.Tables) == 0 && dto.Log2PageSize == pt.log2PageSize && savedUpTo(pt, dto.Tables, pids, oi + 1)
+//@   loop 2: invariant fresh(pages) && (forall i in 0..len(dto.Tables) :: ref(dto.Tables[i].Pages) != ref(pages))
+//@   loop 2: invariant elem != nil ==> lown[elem] == table.entries && 0 <= lpos[elem] && lpos[elem] < llen[table.entries] && lseq[table.entries][lpos[elem]] == elem
+//@   loop 2: invariant len(pages) == (elem == nil ? llen[table.entries] : lpos[elem])
+//@   loop 2: invariant forall k in 0..len(pages) :: pages[k] == pageOf(elemAt(table, k))
